@@ -5,11 +5,11 @@ from harness import travgen, trav
 from harness.common import coq_failing
 
 FLAVOURS = {
-    "C01": [None, "removable", None, "contention"],
+    "C01": [None, "removable", "handover", "contention"],
     "C02": [None, "retry", "removable", "contention"],
     "C03": ["retry", "contention", "retry", None],
     "C04": ["contention", "retry", "contention", None],
-    "C05": ["removable", "removable", "contention", None],
+    "C05": ["removable", "directed", "handover", "directed", "contention", "directed", None],
     "C08": [None, "contention", "retry", "removable"],
 }
 SEED_SHIFT = {"C01": 101, "C02": 202, "C03": 303, "C04": 404, "C05": 505, "C08": 808}
@@ -33,6 +33,10 @@ def monitors(prop, c):
             if m[0] == "C05":
                 if m[1].endswith("in another swarm"):
                     out.append(("C05:cross-swarm-dependant-ignored", m[1]))
+                elif m[1].startswith("state removed before the worker of a dependant arrived"):
+                    out.append(("C05:removed-before-late-worker-arrived", m[1]))
+                elif m[1].startswith("state removed by "):
+                    out.append(("C05:removed-before-dependant-of-arrived-worker-started", m[1]))
                 else:
                     out.append(("C05:" + m[1].replace(" ", "-")[:40], m[1]))
         marked = any(st.get("unset", "r")[0] == "f" for sts in spec["states"].values() for st in sts)
@@ -78,6 +82,10 @@ def classify_c01(c, m):
     here = any(k in ("None", worker) and x in [list(t) for t in v] for k, v in init.items())
     if elsewhere and not here:
         return "C01:residue-only-in-another-workers-own-pool"
+    # the state was there and was removed (unset_mode f.) before this worker, which had not yet arrived at the producer, ran
+    # its dependant: the C05 known finding seen from the dependant
+    if c["run"].c01_removed.get((m[2], m[3], tuple(x))) == "late":
+        return "C01:state-removed-before-late-worker-arrived"
     # node.py derives the reuse scope from ONE keyword per spawner (lxc: swarm, remote: cluster); the other keyword is
     # ignored, so a worker reuses setup of a worker whose pool lies behind a scope that is disabled
     w = c["run"].workers[m[2]]
